@@ -90,7 +90,7 @@ def check_parse(case) -> Result:
     except Exception as e:  # noqa
         r.bad("other-exception", f"parse_svg_path({d!r}) raised {type(e).__name__}: {e}")
         return r
-    r.classes = ("accepted" if accepted else "not-conforming", "raises" if exc else "returns") + tuple(sorted(feats))
+    r.classes = ("accepted" if accepted else "not-conforming", "raises" if exc else "returns") + tuple(sorted(feats)) + (("long-run",) if len(d) > 500 else ())
     if accepted:
         r.classes += ("accepted&" + ("raises" if exc else "agrees"),)
         r.nontrivial = bool(feats) and exc is None
@@ -215,8 +215,29 @@ def mutated(draw):
     return s
 
 
+@st.composite
+def long_run(draw):
+    """Minifier-style data: hundreds to thousands of numbers glued together, delimited only by their sign or dot."""
+    cmd = draw(st.sampled_from("lLtThvcqm"))
+    arity = {"l": 2, "L": 2, "t": 2, "T": 2, "h": 1, "v": 1, "c": 6, "q": 4, "m": 2}[cmd]
+    n = draw(st.sampled_from([150, 400, 700, 1100, 2000])) * arity
+    style = draw(st.sampled_from(["minus", "dot", "mixed"]))
+    toks = []
+    for i in range(n):
+        k = draw(st.integers(0, 9)) if i < 12 else (i * 7 + 3) % 10
+        if style == "minus" or (style == "mixed" and i % 3):
+            toks.append(f"-{k}")
+        else:
+            toks.append(f".{k}5")
+    d = "M1 2" + cmd + "".join(toks)
+    if draw(st.integers(0, 5)) == 0:
+        d += draw(st.sampled_from(["x", "-", "M", "e"]))  # malformed tail: must be a ValueError, not something else
+    return d
+
+
 def parse_strategy(ctx):
     return st.one_of(
+        long_run(),
         grammar_string(friendly=True),
         grammar_string(friendly=True),
         grammar_string(),
